@@ -64,7 +64,7 @@ Inductive apc :=
 Record st := mkSt {
   p_nums : kmap; p_off : N; p_log : list event;             (* persistent *)
   v_cache : kmap; v_inproc : kmap; v_tbf : kmap; v_tbfoff : N; v_next : N;
-  v_txn : bool;
+  v_txn : bool; v_app : bool;   (* a transaction is open; its event has been appended *)
   v_act : apc;
   v_fl : fpc; v_flrun : bool; v_flcancel : bool; v_sig : bool
 }.
@@ -73,7 +73,7 @@ Record cfg := mkCfg { c_cap : N; c_max : N }.
 
 Definition fresh (pn : kmap) (po : N) (lg : list event) : st :=
   (* New(): transactionIsInProgress := true; Actualize() *)
-  mkSt pn po lg [] [] [] 0 0 false AStart FWait false false false.
+  mkSt pn po lg [] [] [] 0 0 false false AStart FWait false false false.
 
 Definition init : st := fresh [] 0 [].
 
@@ -101,14 +101,11 @@ Definition log_from (lg : list event) (off : N) : list event := filter (fun e =>
 Definition last_off (lg : list event) : N := fold_left (fun m e => N.max m (fst e)) lg 0.
 
 Definition set_fl (s : st) (f : fpc) : st :=
-  mkSt (p_nums s) (p_off s) (p_log s) (v_cache s) (v_inproc s) (v_tbf s) (v_tbfoff s) (v_next s) (v_txn s) (v_act s)
-       f (v_flrun s) (v_flcancel s) (v_sig s).
+  mkSt (p_nums s) (p_off s) (p_log s) (v_cache s) (v_inproc s) (v_tbf s) (v_tbfoff s) (v_next s) (v_txn s) (v_app s) (v_act s) f (v_flrun s) (v_flcancel s) (v_sig s).
 Definition set_act (s : st) (a : apc) : st :=
-  mkSt (p_nums s) (p_off s) (p_log s) (v_cache s) (v_inproc s) (v_tbf s) (v_tbfoff s) (v_next s) (v_txn s) a
-       (v_fl s) (v_flrun s) (v_flcancel s) (v_sig s).
+  mkSt (p_nums s) (p_off s) (p_log s) (v_cache s) (v_inproc s) (v_tbf s) (v_tbfoff s) (v_next s) (v_txn s) (v_app s) a (v_fl s) (v_flrun s) (v_flcancel s) (v_sig s).
 Definition set_sig (s : st) (b : bool) : st :=
-  mkSt (p_nums s) (p_off s) (p_log s) (v_cache s) (v_inproc s) (v_tbf s) (v_tbfoff s) (v_next s) (v_txn s) (v_act s)
-       (v_fl s) (v_flrun s) (v_flcancel s) b.
+  mkSt (p_nums s) (p_off s) (p_log s) (v_cache s) (v_inproc s) (v_tbf s) (v_tbfoff s) (v_next s) (v_txn s) (v_app s) (v_act s) (v_fl s) (v_flrun s) (v_flcancel s) b.
 
 Definition is_anone (a : apc) : bool := match a with ANone => true | _ => false end.
 
@@ -119,8 +116,7 @@ Definition step (c : cfg) (s : st) (a : act) : option st :=
       else if negb (is_anone (v_act s)) then (if negb ok && (off =? 0) then Some s else None)
       else if c_max c <? ksize (v_tbf s) then (if negb ok && (off =? 0) then Some (set_sig s true) else None)
       else if ok && (off =? v_next s)
-           then Some (mkSt (p_nums s) (p_off s) (p_log s) (v_cache s) (v_inproc s) (v_tbf s) (v_tbfoff s) (v_next s) true
-                           (v_act s) (v_fl s) (v_flrun s) (v_flcancel s) (v_sig s))
+           then Some (mkSt (p_nums s) (p_off s) (p_log s) (v_cache s) (v_inproc s) (v_tbf s) (v_tbfoff s) (v_next s) true false (v_act s) (v_fl s) (v_flrun s) (v_flcancel s) (v_sig s))
            else None
   | CNext k n =>
       if negb (v_txn s) then None else
@@ -137,23 +133,21 @@ Definition step (c : cfg) (s : st) (a : act) : option st :=
              end, v_cache s)
         end in
       if n =? base + 1
-      then Some (mkSt (p_nums s) (p_off s) (p_log s) (lru_add (c_cap c) k n cache1) (kput k n (v_inproc s))
-                      (v_tbf s) (v_tbfoff s) (v_next s) true (v_act s) (v_fl s) (v_flrun s) (v_flcancel s) (v_sig s))
+      then Some (mkSt (p_nums s) (p_off s) (p_log s) (lru_add (c_cap c) k n cache1) (kput k n (v_inproc s)) (v_tbf s) (v_tbfoff s) (v_next s) true (v_app s) (v_act s) (v_fl s) (v_flrun s) (v_flcancel s) (v_sig s))
       else None
   | EAppend off vals =>
       (* the client appends the event that carries exactly the numbers issued in this transaction *)
-      if v_txn s && (off =? v_next s) && keqb vals (v_inproc s)
+      if v_txn s && negb (v_app s) && (off =? v_next s) && keqb vals (v_inproc s)
       then Some (mkSt (p_nums s) (p_off s) (p_log s ++ [(off, vals)]) (v_cache s) (v_inproc s) (v_tbf s) (v_tbfoff s)
-                      (v_next s) true (v_act s) (v_fl s) (v_flrun s) (v_flcancel s) (v_sig s))
+                      (v_next s) true true (v_act s) (v_fl s) (v_flrun s) (v_flcancel s) (v_sig s))
       else None
   | CFlush =>
-      if negb (v_txn s) then None else
-      Some (mkSt (p_nums s) (p_off s) (p_log s) (v_cache s) [] (kmerge (v_tbf s) (v_inproc s)) (v_next s) (v_next s + 1)
-                 false (v_act s) (v_fl s) (v_flrun s) (v_flcancel s) true)
+      (* client protocol: Flush only after the transaction's event was appended *)
+      if negb (v_txn s) || negb (v_app s) then None else
+      Some (mkSt (p_nums s) (p_off s) (p_log s) (v_cache s) [] (kmerge (v_tbf s) (v_inproc s)) (v_next s) (v_next s + 1) false false (v_act s) (v_fl s) (v_flrun s) (v_flcancel s) true)
   | CActualize =>
       if negb (v_txn s) || negb (is_anone (v_act s)) then None else
-      Some (mkSt (p_nums s) (p_off s) (p_log s) [] [] (v_tbf s) (v_tbfoff s) (v_next s) false AStart
-                 (v_fl s) (v_flrun s) (v_flcancel s) (v_sig s))
+      Some (mkSt (p_nums s) (p_off s) (p_log s) [] [] (v_tbf s) (v_tbfoff s) (v_next s) false false AStart (v_fl s) (v_flrun s) (v_flcancel s) (v_sig s))
   | FWake =>
       match v_fl s with
       | FWait => if v_flrun s && v_sig s && negb (v_flcancel s) then Some (set_sig (set_fl s FWoken) false) else None
@@ -162,8 +156,7 @@ Definition step (c : cfg) (s : st) (a : act) : option st :=
   | FExit =>
       match v_fl s with
       | FWait => if v_flrun s && v_flcancel s
-                 then Some (mkSt (p_nums s) (p_off s) (p_log s) (v_cache s) (v_inproc s) (v_tbf s) (v_tbfoff s) (v_next s)
-                                 (v_txn s) (v_act s) FWait false (v_flcancel s) (v_sig s))
+                 then Some (mkSt (p_nums s) (p_off s) (p_log s) (v_cache s) (v_inproc s) (v_tbf s) (v_tbfoff s) (v_next s) (v_txn s) (v_app s) (v_act s) FWait false (v_flcancel s) (v_sig s))
                  else None
       | _ => None
       end
@@ -181,15 +174,13 @@ Definition step (c : cfg) (s : st) (a : act) : option st :=
   | FWriteNums =>
       match v_fl s with
       | FSnap vals off =>
-          Some (mkSt (kmerge (p_nums s) vals) (p_off s) (p_log s) (v_cache s) (v_inproc s) (v_tbf s) (v_tbfoff s) (v_next s)
-                     (v_txn s) (v_act s) (FNums vals off) (v_flrun s) (v_flcancel s) (v_sig s))
+          Some (mkSt (kmerge (p_nums s) vals) (p_off s) (p_log s) (v_cache s) (v_inproc s) (v_tbf s) (v_tbfoff s) (v_next s) (v_txn s) (v_app s) (v_act s) (FNums vals off) (v_flrun s) (v_flcancel s) (v_sig s))
       | _ => None
       end
   | FWriteOff =>
       match v_fl s with
       | FNums vals off =>
-          Some (mkSt (p_nums s) off (p_log s) (v_cache s) (v_inproc s) (v_tbf s) (v_tbfoff s) (v_next s)
-                     (v_txn s) (v_act s) (FWritten vals) (v_flrun s) (v_flcancel s) (v_sig s))
+          Some (mkSt (p_nums s) off (p_log s) (v_cache s) (v_inproc s) (v_tbf s) (v_tbfoff s) (v_next s) (v_txn s) (v_app s) (v_act s) (FWritten vals) (v_flrun s) (v_flcancel s) (v_sig s))
       | _ => None
       end
   | FWriteErr =>
@@ -202,14 +193,12 @@ Definition step (c : cfg) (s : st) (a : act) : option st :=
   | FRemove =>
       match v_fl s with
       | FWritten vals =>
-          Some (mkSt (p_nums s) (p_off s) (p_log s) (v_cache s) (v_inproc s) (kremove_same (v_tbf s) vals) (v_tbfoff s) (v_next s)
-                     (v_txn s) (v_act s) FWait (v_flrun s) (v_flcancel s) (v_sig s))
+          Some (mkSt (p_nums s) (p_off s) (p_log s) (v_cache s) (v_inproc s) (kremove_same (v_tbf s) vals) (v_tbfoff s) (v_next s) (v_txn s) (v_app s) (v_act s) FWait (v_flrun s) (v_flcancel s) (v_sig s))
       | _ => None
       end
   | XStop =>
       match v_act s with
-      | AStart => Some (mkSt (p_nums s) (p_off s) (p_log s) (v_cache s) (v_inproc s) (v_tbf s) (v_tbfoff s) (v_next s)
-                             (v_txn s) AStopping (v_fl s) (v_flrun s) true (v_sig s))
+      | AStart => Some (mkSt (p_nums s) (p_off s) (p_log s) (v_cache s) (v_inproc s) (v_tbf s) (v_tbfoff s) (v_next s) (v_txn s) (v_app s) AStopping (v_fl s) (v_flrun s) true (v_sig s))
       | _ => None
       end
   | XStopped =>
@@ -219,15 +208,13 @@ Definition step (c : cfg) (s : st) (a : act) : option st :=
       end
   | XClear =>
       match v_act s with
-      | AStopped => Some (mkSt (p_nums s) (p_off s) (p_log s) (v_cache s) (v_inproc s) [] 0 (v_next s)
-                               (v_txn s) ACleared FWait true false (v_sig s))
+      | AStopped => Some (mkSt (p_nums s) (p_off s) (p_log s) (v_cache s) (v_inproc s) [] 0 (v_next s) (v_txn s) (v_app s) ACleared FWait true false (v_sig s))
       | _ => None
       end
   | XReadOff ok =>
       match v_act s with
       | ACleared =>
-          if ok then Some (mkSt (p_nums s) (p_off s) (p_log s) (v_cache s) (v_inproc s) (v_tbf s) (v_tbfoff s) (p_off s)
-                                (v_txn s) (AScan (log_from (p_log s) (p_off s))) (v_fl s) (v_flrun s) (v_flcancel s) (v_sig s))
+          if ok then Some (mkSt (p_nums s) (p_off s) (p_log s) (v_cache s) (v_inproc s) (v_tbf s) (v_tbfoff s) (p_off s) (v_txn s) (v_app s) (AScan (log_from (p_log s) (p_off s))) (v_fl s) (v_flrun s) (v_flcancel s) (v_sig s))
           else Some s
       | _ => None
       end
@@ -247,18 +234,15 @@ Definition step (c : cfg) (s : st) (a : act) : option st :=
       | AScan (e :: todo) =>
           if (ksize (v_tbf s) <? c_max c) && (off =? fst e + 1)
           then if seq_batcher_two_step
-               then Some (mkSt (p_nums s) (p_off s) (p_log s) (v_cache s) (v_inproc s) (v_tbf s) (fst e + 1) (fst e + 1)
-                               (v_txn s) (ABetween e todo) (v_fl s) (v_flrun s) (v_flcancel s) (v_sig s))
-               else Some (mkSt (p_nums s) (p_off s) (p_log s) (v_cache s) (v_inproc s) (kmerge (v_tbf s) (snd e)) (fst e + 1) (fst e + 1)
-                               (v_txn s) (AScan todo) (v_fl s) (v_flrun s) (v_flcancel s) (v_sig s))
+               then Some (mkSt (p_nums s) (p_off s) (p_log s) (v_cache s) (v_inproc s) (v_tbf s) (fst e + 1) (fst e + 1) (v_txn s) (v_app s) (ABetween e todo) (v_fl s) (v_flrun s) (v_flcancel s) (v_sig s))
+               else Some (mkSt (p_nums s) (p_off s) (p_log s) (v_cache s) (v_inproc s) (kmerge (v_tbf s) (snd e)) (fst e + 1) (fst e + 1) (v_txn s) (v_app s) (AScan todo) (v_fl s) (v_flrun s) (v_flcancel s) (v_sig s))
           else None
       | _ => None
       end
   | XBatchVals =>
       match v_act s with
       | ABetween e todo =>
-          Some (mkSt (p_nums s) (p_off s) (p_log s) (v_cache s) (v_inproc s) (kmerge (v_tbf s) (snd e)) (v_tbfoff s) (v_next s)
-                     (v_txn s) (AScan todo) (v_fl s) (v_flrun s) (v_flcancel s) (v_sig s))
+          Some (mkSt (p_nums s) (p_off s) (p_log s) (v_cache s) (v_inproc s) (kmerge (v_tbf s) (snd e)) (v_tbfoff s) (v_next s) (v_txn s) (v_app s) (AScan todo) (v_fl s) (v_flrun s) (v_flcancel s) (v_sig s))
       | _ => None
       end
   | XDone =>
